@@ -70,7 +70,7 @@ ASSUMPTIONS = [
 ]
 RULE = ("models jc, k2p, f81, f84, tn93, gtr and the 7 protein matrices (model and user frequencies) x parameter grids "
         "(kappa in {0.01..100}, fixed + random simplex points, random GTR rate 6-tuples) x pairs (s,t) of branch lengths from "
-        "{0, 1e-8, 1e-6, 1e-4, 0.01, 0.1, 0.5, 1, 2, 10, 50, 100}; each case returns pi, the eigen-system and P(s), P(t), P(s+t) of the real code; "
+        "{0, 1e-8, 1e-6, 1e-4, 0.01, 0.1, 0.5, 1, 2, 10, 50, 100}; each case returns pi, the eigen-system and P(s), P(t), P(s+t) of the real code; re-initialisation cases (a model value and a live Pij that served another parameter point before); "
         "non-trivial = non-symmetric parameter point (non-uniform frequencies, kappa != 1, or unequal rates) with s > 0 and t > 0")
 
 TS = [0.0, 1e-8, 1e-6, 1e-4, 0.01, 0.1, 0.5, 1.0, 2.0, 10.0, 50.0, 100.0]
@@ -122,7 +122,7 @@ def mk(model, params, s, t, nontrivial, tag):
     return Case("c18", [model, csv(params), f2s(s), f2s(t)], nontrivial and s > 0 and t > 0, tag)
 
 
-def gen(rng, tier):
+def _gen_core(rng, tier):
     _seen_models.clear()
     quick = tier == "quick"
     npair = 6 if quick else 14
@@ -164,6 +164,21 @@ def gen(rng, tier):
         for u in users:
             for s, t in pairs(rng, 3 if quick else 8, "protu%d" % idx):
                 yield mk("prot", [idx] + list(u), s, t, True, "prot-userfreq")
+
+
+def gen(rng, tier):
+    """every fresh-model case, plus re-initialisation cases (c18re): the model value and a live Pij first serve another
+    parameter point of the same family, the model is initialised again and the same Pij answers"""
+    last = {}
+    for c in _gen_core(rng, tier):
+        yield c
+        model, params = c.args[0], c.args[1]
+        fam = model if model != "prot" else "prot" + params.split(",")[0]
+        prev = last.get(fam)
+        if prev is not None and prev != params and rng.random() < 0.4:
+            yield Case("c18re", [model, prev, params] + c.args[2:], c.nontrivial, c.tag + "-reinit")
+        if rng.random() < 0.5 or prev is None:
+            last[fam] = params
 
 
 def check(tier, seed):
